@@ -1141,7 +1141,9 @@ def add_time_after_dose(model: Model):
     # FIXME: Temp workaround, should be canonicalized in Model.replace
     di = update_datainfo(model.datainfo, df)
     colinfo = di['TAD'].replace(descriptor='time after dose', unit=di[idv].unit)
-    model = model.replace(datainfo=di.set_column(colinfo), dataset=df)
+    # NOTE: An already existing TAD column is overwritten: the data file on disk no longer holds this dataset
+    di = di.set_column(colinfo).replace(path=None)
+    model = model.replace(datainfo=di, dataset=df)
     return model.update_source()
 
 
